@@ -1,6 +1,6 @@
 /-
 C12 — ppIsIrred against trial division: exhaustive kernel check for all polynomials of degree ≤ 11
-(chunks of `decide +kernel`), and the unfolding of the trial-division specification.  No Mathlib.
+(chunks of `decide +kernel`), the unfolding of the trial-division specification, deg (a mod m) < deg m.  No Mathlib.
 Timings (loaded machine, kernel): degree ≤ 8: 7 s, degree 9: 10 s, degree 10: 2 × 14 s, degree 11: 8 × 7 s;
 degree 12 would need 32 more chunks of ≈ 4.5 s (≈ 2.5 min): not included.
 -/
@@ -27,6 +27,84 @@ theorem irredTD_spec (f : Nat) :
     · exact Or.inr (h d (by omega) hd)
 
 example : irredTD 0b1011 = true ∧ irredTD 0b1001 = false := by decide +kernel
+
+/-! ### plen / pmod: deg (a mod m) < deg m -/
+
+namespace PpAux
+
+theorem plen_le_iff (a k : Nat) : plen a ≤ k ↔ a < 2 ^ k := by
+  unfold plen
+  by_cases h : a = 0
+  · subst h; simp [Nat.two_pow_pos]
+  · rw [if_neg h, Nat.succ_le_iff, Nat.log2_lt h]
+
+theorem plen_pos (a : Nat) (h : a ≠ 0) : 0 < plen a := by simp [plen, h]
+
+theorem testBit_top (a : Nat) (h : a ≠ 0) : a.testBit (plen a - 1) = true := by
+  simp only [plen, if_neg h, Nat.add_sub_cancel]
+  exact Nat.testBit_log2 h
+
+/-- cancelling the leading term lowers the length -/
+theorem plen_step (a m : Nat) (ha : a ≠ 0) (hm : m ≠ 0) (hge : plen a ≥ plen m) :
+    plen (a ^^^ (m <<< (plen a - plen m))) < plen a := by
+  have hpa := plen_pos a ha
+  have hpm := plen_pos m hm
+  have h1 : a < 2 ^ plen a := (plen_le_iff a _).1 (Nat.le_refl _)
+  have h2 : m <<< (plen a - plen m) < 2 ^ plen a := by
+    rw [Nat.shiftLeft_eq]
+    have hm' : m < 2 ^ plen m := (plen_le_iff m _).1 (Nat.le_refl _)
+    have : m * 2 ^ (plen a - plen m) < 2 ^ plen m * 2 ^ (plen a - plen m) :=
+      Nat.mul_lt_mul_of_pos_right hm' (Nat.two_pow_pos _)
+    rwa [← Nat.pow_add, show plen m + (plen a - plen m) = plen a by omega] at this
+  have hx : a ^^^ (m <<< (plen a - plen m)) < 2 ^ plen a := Nat.xor_lt_two_pow h1 h2
+  have htop : (a ^^^ (m <<< (plen a - plen m))).testBit (plen a - 1) = false := by
+    rw [Nat.testBit_xor, testBit_top a ha, Nat.testBit_shiftLeft,
+      show plen a - 1 - (plen a - plen m) = plen m - 1 by omega, testBit_top m hm]
+    have : plen a - 1 ≥ plen a - plen m := by omega
+    simp [this]
+  have hlt : a ^^^ (m <<< (plen a - plen m)) < 2 ^ (plen a - 1) := by
+    apply Nat.lt_pow_two_of_testBit
+    intro i hi
+    by_cases hi' : i = plen a - 1
+    · rw [hi']; exact htop
+    · apply Nat.testBit_lt_two_pow
+      exact Nat.lt_of_lt_of_le hx (Nat.pow_le_pow_right (by omega) (by omega))
+  have := (plen_le_iff _ _).2 hlt
+  omega
+
+theorem pmodAux_plen (m : Nat) (hm : m ≠ 0) : ∀ fuel a, plen a < plen m + fuel →
+    plen (pmodAux m (plen m) fuel a) < plen m := by
+  intro fuel
+  induction fuel with
+  | zero => intro a h; simpa [pmodAux] using h
+  | succ fuel ih =>
+    intro a h
+    simp only [pmodAux]
+    by_cases hc : plen a ≥ plen m ∧ a ≠ 0
+    · rw [if_pos hc]
+      apply ih
+      have := plen_step a m hc.2 hm hc.1
+      omega
+    · rw [if_neg hc]
+      by_cases ha : a = 0
+      · subst ha; exact plen_pos m hm
+      · omega
+
+end PpAux
+
+/-- deg (a mod m) < deg m -/
+theorem pmod_lt (a m : Nat) (hm : m ≠ 0) : pmod a m < 2 ^ (plen m - 1) := by
+  have hpm := PpAux.plen_pos m hm
+  rw [← PpAux.plen_le_iff]
+  unfold pmod
+  rw [if_neg hm]
+  have := PpAux.pmodAux_plen m hm (plen a) a (by omega)
+  omega
+
+theorem plen_pmod_lt (a m : Nat) (hm : m ≠ 0) : plen (pmod a m) < plen m := by
+  have := (PpAux.plen_le_iff _ _).2 (pmod_lt a m hm)
+  have := PpAux.plen_pos m hm
+  omega
 
 /-! ### exhaustive comparison -/
 
